@@ -10,7 +10,7 @@ Judges the answers of the real system (suite `shutdown-registry`):
   `OnTerminated` (run-level theorem `MV.Props.C05.C05_shutdown_waits` for the model: `closed` ⇒ everybody
   terminated); `hang` is a violation;
 * `registry => [ … ]`: once the outstanding asks have completed nothing is registered any more
-  (`MV.Props.C05.C05_terminated_unregistered` for actors, `MV.Props.C07.C07_released` for reply addresses).
+  (actors: `MV.Props.C05.C05_shutdown_waits` + `C05_unregistered_only_after_termination` for the model and the judged real record; reply addresses: `MV.Props.C07.C07_released`).
 -/
 namespace Oracle.ShutdownRegistry
 
